@@ -1,0 +1,20 @@
+//go:build verif
+
+package req
+
+import (
+	"sync/atomic"
+
+	"go.nanomsg.org/mangos/v3/protocol"
+)
+
+// VerifSetNextID positions the id counter of a protocol instance obtained
+// from NewProtocol (before or after protocol.MakeSocket), so that a monitor
+// can drive it across the 32-bit wrap.  It reports whether p is one of ours.
+func VerifSetNextID(p protocol.Protocol, next uint32) bool {
+	s, ok := p.(*socket)
+	if ok {
+		atomic.StoreUint32(&s.nextID, next)
+	}
+	return ok
+}
